@@ -422,19 +422,31 @@ package bus
 //@     invariant !o.signalsMutex.lockw && o.signalsMutex.lockr == 0
 //@     invariant forall k int {signals[k]} :: 0 <= k && k < len(signals) ==> signals[k].signalID == signalID && signals[k].context != nil
 
-// addSignalUser: a new entry is appended only when no entry with this user id exists; on a
-// duplicate id nothing of the table changes and the only handler removed is the one just created
-// for the new (rejected) registration.
+// addSignalUser: a duplicate id is refused before anything is touched (the table and every
+// connection handler stay as they are); otherwise exactly one entry is appended.
 //@ func (o *signalHandler) addSignalUser(userID uint64, signalID uint32, messageID uint32, from Channel) (err error)
 //@   tags C13 C12
 //@   requires !o.signalsMutex.lockw && o.signalsMutex.lockr == 0 && from != nil
 //@   modifies everything
 //@   ensures[C13,C12] !o.signalsMutex.lockw && o.signalsMutex.lockr == 0
 //@   ensures[C13] err == nil ==> at_unlock(len(o.signals)) == at_lock(len(o.signals)) + 1 && at_unlock(o.signals[at_lock(len(o.signals))]).userID == userID && at_unlock(o.signals[at_lock(len(o.signals))]).signalID == signalID && at_unlock(o.signals[at_lock(len(o.signals))]).messageID == messageID
-//@   ensures[C13] err == nil ==> forall k int {at_lock(o.signals[k])} :: 0 <= k && k < at_lock(len(o.signals)) ==> at_lock(o.signals[k]).userID != userID
-//@   ensures[C13] err != nil ==> at_unlock(len(o.signals)) == at_lock(len(o.signals))
-//@   call RemoveHandler#1: assert[C13,C12] arg0 == newUser.contextID && recv == e
+//@   ensures[C13,C12] err != nil ==> at_unlock(len(o.signals)) == at_lock(len(o.signals))
+//@   ensures[C13] from.replies == old(from.replies) && from.errsent == old(from.errsent)
+//@   call MakeHandler#1: assert[C13] forall k int {at_lock(o.signals[k])} :: 0 <= k && k < at_lock(len(o.signals)) ==> at_lock(o.signals[k]).userID != userID
 //@   loop 1:
-//@     invariant o.signalsMutex.lockw && o.signals == at_lock(o.signals) && e != nil
-//@     invariant forall k int {o.signals[k]} :: 0 <= k && k < len(o.signals) ==> o.signals[k].context != nil
+//@     invariant !o.signalsMutex.lockw && o.signalsMutex.lockr == 1 && o.signals == at_lock(o.signals)
 //@     invariant forall k int {o.signals[k]} :: 0 <= k && k <= rangeindex && k < len(o.signals) ==> o.signals[k].userID != userID
+
+// RegisterEvent / UnregisterEvent: every request gets exactly one answer (reply or error); a
+// payload that cannot be decoded is answered with an error without touching the table.
+//@ func (o *signalHandler) RegisterEvent(msg *net.Message, from Channel) (err error)
+//@   tags C13 C12
+//@   requires msg != nil && from != nil && !o.signalsMutex.lockw && o.signalsMutex.lockr == 0
+//@   modifies everything
+//@   ensures[C13,C12] !o.signalsMutex.lockw && o.signalsMutex.lockr == 0
+//@   ensures[C13,C12] from.replies + from.errsent == old(from.replies) + old(from.errsent) + 1
+//@ func (o *signalHandler) UnregisterEvent(msg *net.Message, from Channel) (err error)
+//@   tags C13 C12
+//@   requires msg != nil && from != nil && !o.signalsMutex.lockw && o.signalsMutex.lockr == 0
+//@   modifies everything
+//@   ensures[C13,C12] !o.signalsMutex.lockw && o.signalsMutex.lockr == 0
